@@ -643,3 +643,371 @@ Proof.
   induction l as [|[[[st ps] sv] b] l IH]; intro budget; cbn [phase_c_loop budgets combine map]; [reflexivity|].
   rewrite IH. reflexivity.
 Qed.
+
+(* ================================================================== C06: the assembled month_step, herd by herd *)
+
+Section Forall2_tools.
+Context {A B C D E : Type}.
+
+Lemma F2_self_map : forall (f : A -> B) (R : A -> B -> Prop) l, (forall x, R x (f x)) -> Forall2 R l (map f l).
+Proof. intros f R l H. induction l; cbn [map]; constructor; auto. Qed.
+
+Lemma F2_map_r : forall (R : A -> C -> Prop) (f : B -> C) l l',
+  Forall2 (fun x y => R x (f y)) l l' -> Forall2 R l (map f l').
+Proof. intros R f l l' H. induction H; cbn [map]; constructor; auto. Qed.
+
+Lemma F2_map_l : forall (R : B -> C -> Prop) (f : A -> B) l l',
+  Forall2 R (map f l) l' -> Forall2 (fun x y => R (f x) y) l l'.
+Proof.
+  intros R f l. induction l as [|x l IH]; intros l' H; cbn [map] in H; inversion H; subst; constructor; auto.
+Qed.
+
+Lemma F2_trans : forall (R1 : A -> B -> Prop) (R2 : B -> C -> Prop) l z c,
+  Forall2 R1 l z -> Forall2 R2 z c -> Forall2 (fun x y => exists q, R1 x q /\ R2 q y) l c.
+Proof.
+  intros R1 R2 l z c H. revert c. induction H; intros c H2; inversion H2; subst; constructor; eauto.
+Qed.
+
+Lemma F2_combine : forall (Ra : A -> B -> Prop) (Rb : A -> C -> Prop) l a b,
+  Forall2 Ra l a -> Forall2 Rb l b -> Forall2 (fun x p => Ra x (fst p) /\ Rb x (snd p)) l (combine a b).
+Proof.
+  intros Ra Rb l a b H. revert b. induction H; intros b H2; inversion H2; subst; cbn [combine]; constructor; auto.
+Qed.
+
+Lemma F2_zip4 : forall (Ra : A -> B -> Prop) (Rb : A -> C -> Prop) (Rc : A -> D -> Prop) (Rd : A -> E -> Prop) l a b c d,
+  Forall2 Ra l a -> Forall2 Rb l b -> Forall2 Rc l c -> Forall2 Rd l d ->
+  Forall2 (fun x q => let '(p1, p2, p3, p4) := q in Ra x p1 /\ Rb x p2 /\ Rc x p3 /\ Rd x p4) l (zip4 a b c d).
+Proof.
+  intros Ra Rb Rc Rd l a b c d H. revert b c d.
+  induction H; intros b c d H2 H3 H4; inversion H2; inversion H3; inversion H4; subst; cbn [zip4]; constructor; auto.
+Qed.
+
+Lemma F2_len : forall (l : list A) (a : list B), List.length a = List.length l -> Forall2 (fun _ _ => True) l a.
+Proof.
+  induction l as [|x l IH]; intros [|y a] H; cbn in H; try discriminate; constructor; auto.
+Qed.
+
+Lemma F2_Forall_r : forall (R : A -> B -> Prop) (P : B -> Prop) l z,
+  Forall2 R l z -> (forall x q, R x q -> P q) -> Forall P z.
+Proof. intros R P l z H K. induction H; constructor; eauto. Qed.
+
+Lemma F2_with_l : forall (R : A -> B -> Prop) (P : A -> Prop) l z,
+  Forall P l -> Forall2 R l z -> Forall2 (fun x y => P x /\ R x y) l z.
+Proof. intros R P l z HP H. induction H; inversion HP; subst; constructor; auto. Qed.
+
+Lemma Forall2_impl : forall (R R' : A -> B -> Prop) l z, (forall x y, R x y -> R' x y) -> Forall2 R l z -> Forall2 R' l z.
+Proof. intros R R' l z K H. induction H; constructor; auto. Qed.
+
+Lemma F2_length : forall (R : A -> B -> Prop) l z, Forall2 R l z -> List.length z = List.length l.
+Proof. intros R l z H. induction H; cbn; auto. Qed.
+Lemma F2_fst : forall (l : list A) (z : list B), List.length z = List.length l ->
+  Forall2 (fun p x => x = fst p) (combine l z) l.
+Proof. induction l as [|x l IH]; intros [|y z] H; cbn in *; try discriminate; constructor; auto. Qed.
+
+Lemma F2_snd : forall (l : list A) (z : list B), List.length z = List.length l ->
+  Forall2 (fun p y => y = snd p) (combine l z) z.
+Proof. induction l as [|x l IH]; intros [|y z] H; cbn in *; try discriminate; constructor; auto. Qed.
+
+Lemma F2_Forall_combine : forall (R : A -> B -> Prop) l z, Forall2 R l z -> Forall (fun p => R (fst p) (snd p)) (combine l z).
+Proof. intros R l z H. induction H; cbn [combine]; constructor; auto. Qed.
+
+Lemma F2_uncombine : forall (R : A -> C -> Prop) (l : list A) (z : list B) rs, List.length z = List.length l ->
+  Forall2 (fun p r => R (fst p) r) (combine l z) rs -> Forall2 R l rs.
+Proof.
+  induction l as [|x l IH]; intros [|y z] rs H H2; cbn in *; try discriminate; inversion H2; subst; constructor; eauto.
+Qed.
+End Forall2_tools.
+
+Lemma zip4_third : forall (A B C D : Type) (c : list C) (a : list A) (b : list B) (d : list D),
+  List.length a = List.length c -> List.length b = List.length c -> List.length d = List.length c ->
+  map (fun q : A * B * C * D => let '(_, _, z, _) := q in z) (zip4 a b c d) = c.
+Proof.
+  induction c as [|z c IH]; intros [|x a] [|y b] [|w d] H1 H2 H3; cbn in *; try discriminate; try reflexivity.
+  f_equal. apply IH; congruence.
+Qed.
+
+Lemma feed_chain_length : forall l g f, List.length (fst (fst (feed_chain l g f))) = List.length l.
+Proof.
+  induction l as [|s l IH]; intros g f; cbn [feed_chain]; [reflexivity|].
+  specialize (IH (fo_grass (feed_the_species s g f)) (fo_feed (feed_the_species s g f))).
+  destruct (feed_chain l _ _) as [[os g'] f']. cbn [fst] in *. cbn [List.length]. rewrite IH. reflexivity.
+Qed.
+
+Definition herd_ok (x : sstatic * sstate) : Prop := static_ok (fst x) /\ state_ok (snd x).
+
+Definition als_of (m : Q) (l : list (sstatic * sstate)) : list (sstatic * phaseA) :=
+  map (fun x : sstatic * sstate => (fst x, phase_a m x)) l.
+
+Definition h0_of (l : list (sstatic * sstate)) : hours3 :=
+  (hours_of_size Small (map fst l), hours_of_size Medium (map fst l), hours_of_size Large (map fst l)).
+
+(* every herd of the slaughter loop is processed by phase_b with non-negative remaining hours *)
+Lemma phase_b_loop_rel : forall month0 all l h, Forall (fun x => static_ok (fst x)) l -> hours_nonneg h ->
+  Forall2 (fun sa b => exists remaining, 0 <= remaining /\
+             b = phase_b month0 (fst sa) (snd sa) (transfer_of (st_sp (fst sa)) all 0) remaining)
+          l (fst (phase_b_loop month0 all l h)).
+Proof.
+  intros month0 all l. induction l as [|[st a] l IH]; intros h Hok Hh; cbn [phase_b_loop]; [constructor|].
+  inversion Hok as [|? ? Hst Hl]; subst. cbn [fst] in Hst.
+  set (b := phase_b month0 st a (transfer_of (st_sp st) all 0) (hget h (st_size st))).
+  assert (Hrem : 0 <= hget h (st_size st)) by (destruct Hh as (A & B & C); destruct (st_size st); assumption).
+  pose proof (phase_b_spec month0 st a (transfer_of (st_sp st) all 0) (hget h (st_size st)) Hst Hrem) as B.
+  cbn zeta in B. fold b in B.
+  destruct B as (_ & _ & _ & _ & _ & _ & _ & _ & _ & Br & Br0 & _).
+  assert (Hh' : hours_nonneg (hset h (st_size st) (b_remaining b))).
+  { destruct Hh as (A & B & C). destruct h as [[x y] w]. unfold hours_nonneg. destruct (st_size st); cbn in *; repeat split; assumption. }
+  specialize (IH (hset h (st_size st) (b_remaining b)) Hl Hh').
+  destruct (phase_b_loop month0 all l (hset h (st_size st) (b_remaining b))) as [bs h']. cbn [fst] in *.
+  constructor; [|exact IH]. exists (hget h (st_size st)). split; [exact Hrem|reflexivity].
+Qed.
+
+Definition c_side (x : sstatic * Q * Q * phaseB) : Prop :=
+  let '(st, _, _, b) := x in
+  0 < st_hours st /\ 0 <= st_starv st /\ 0 <= b_other_death b /\ 0 <= b_ptot b /\ 0 <= b_pbirth b.
+
+Lemma phase_c_loop_rel : forall l budget, budget == 0 -> Forall c_side l ->
+  Forall2 (fun x c => let '(st, ps, sv, b) := x in exists q, q == 0 /\ c = phase_c st ps sv b q) l (phase_c_loop l budget).
+Proof.
+  induction l as [|[[[st ps] sv] b] l IH]; intros budget Hb H; cbn [phase_c_loop]; [constructor|].
+  inversion H as [|? ? Hx Hl]; subst. cbn beta iota in Hx. destruct Hx as (H1 & H2 & H3 & H4 & H5).
+  constructor.
+  - exists budget. split; [exact Hb|reflexivity].
+  - apply IH; [|exact Hl].
+    pose proof (phase_c_spec st ps sv b budget Hb H1 H2 H3 H4 H5) as C. cbn zeta in C.
+    destruct C as (_ & _ & _ & _ & C5 & _). exact C5.
+Qed.
+
+(* what month_step returns for the herd x of the list l *)
+Definition herd_month (m : Q) (month0 : bool) (l : list (sstatic * sstate)) (x : sstatic * sstate) (r : species_month) : Prop :=
+  exists remaining sv budget,
+    0 <= remaining /\ budget == 0 /\
+    m_a r = phase_a m x /\
+    m_b r = phase_b month0 (fst x) (phase_a m x) (transfer_of (st_sp (fst x)) (als_of m l) 0) remaining /\
+    m_c r = phase_c (fst x) (s_pop (snd x)) sv (m_b r) budget.
+
+Lemma month_step_herds : forall month l feed grass, Forall herd_ok l ->
+  let m := inject_Z (Z.of_nat month) in
+  let rs := fst (fst (month_step month l feed grass)) in
+  Forall2 (herd_month m (Nat.eqb month 0) l) l rs /\
+  map m_b rs = fst (phase_b_loop (Nat.eqb month 0) (als_of m l) (als_of m l) (h0_of l)).
+Proof.
+  intros month l feed grass Hok m rs. subst rs. unfold month_step. fold m.
+  pose proof (feed_chain_length (map mk_feeder l) grass feed) as Hfl. rewrite map_length in Hfl.
+  destruct (feed_chain (map mk_feeder l) grass feed) as [[fos g'] f']. cbn [fst] in Hfl.
+  change (map (fun x : sstatic * sstate => (fst x, phase_a m x)) l) with (als_of m l).
+  change (hours_of_size Small (map fst l), hours_of_size Medium (map fst l), hours_of_size Large (map fst l)) with (h0_of l).
+  set (month0 := Nat.eqb month 0).
+  assert (Hst : Forall (fun x : sstatic * phaseA => static_ok (fst x)) (als_of m l)).
+  { unfold als_of. apply Forall_map. eapply Forall_impl; [|exact Hok]. intros x [Hx _]. exact Hx. }
+  assert (Hsts : Forall static_ok (map fst l)).
+  { apply Forall_map. eapply Forall_impl; [|exact Hok]. intros x [Hx _]. exact Hx. }
+  assert (Hh0 : hours_nonneg (h0_of l)).
+  { unfold h0_of, hours_nonneg. cbn. repeat split; apply hours_of_size_nonneg; exact Hsts. }
+  pose proof (phase_b_loop_rel month0 (als_of m l) (als_of m l) (h0_of l) Hst Hh0) as Hbs.
+  destruct (phase_b_loop month0 (als_of m l) (als_of m l) (h0_of l)) as [bs hfin]. cbn [fst] in Hbs |- *.
+  unfold als_of in Hbs at 2. apply F2_map_l in Hbs. cbn [fst snd] in Hbs.
+  pose proof (F2_length _ _ _ Hbs) as Lbs.
+  set (svs := map (fun xo : sstatic * sstate * fedout => s_pop (snd (fst xo)) - fo_fed (snd xo)) (combine l fos)).
+  assert (Lsvs : List.length svs = List.length l).
+  { subst svs. rewrite map_length, combine_length, Hfl. apply Nat.min_id. }
+  (* index the month by the pairs (herd, its phase_b record) *)
+  set (L := combine l bs).
+  assert (LL : List.length L = List.length l) by (subst L; rewrite combine_length, Lbs; apply Nat.min_id).
+  pose proof (F2_fst l bs Lbs) as Ffst. fold L in Ffst.
+  pose proof (F2_snd l bs Lbs) as Fsnd. fold L in Fsnd.
+  assert (HL : Forall (fun p : (sstatic * sstate) * phaseB => herd_ok (fst p) /\
+                 exists remaining, 0 <= remaining /\
+                   snd p = phase_b month0 (fst (fst p)) (phase_a m (fst p))
+                                   (transfer_of (st_sp (fst (fst p))) (als_of m l) 0) remaining) L).
+  { subst L. apply (F2_Forall_combine (fun x b => herd_ok x /\ exists remaining, 0 <= remaining /\
+        b = phase_b month0 (fst x) (phase_a m x) (transfer_of (st_sp (fst x)) (als_of m l) 0) remaining)).
+    apply F2_with_l; assumption. }
+  assert (Fsvs : Forall2 (fun (_ : (sstatic * sstate) * phaseB) (_ : Q) => True) L svs) by (apply F2_len; congruence).
+  assert (Ffos : Forall2 (fun (_ : (sstatic * sstate) * phaseB) (_ : fedout) => True) L fos) by (apply F2_len; congruence).
+  assert (Fals : Forall2 (fun (p : (sstatic * sstate) * phaseB) (sa : sstatic * phaseA) => sa = (fst (fst p), phase_a m (fst p))) L (als_of m l)).
+  { unfold als_of. apply F2_map_r. eapply Forall2_impl; [|exact Ffst]. intros p x ->. reflexivity. }
+  assert (Fst : Forall2 (fun (p : (sstatic * sstate) * phaseB) (st : sstatic) => st = fst (fst p)) L (map fst l)).
+  { apply F2_map_r. eapply Forall2_impl; [|exact Ffst]. intros p x ->. reflexivity. }
+  assert (Fps : Forall2 (fun (p : (sstatic * sstate) * phaseB) (ps : Q) => ps = s_pop (snd (fst p))) L
+                        (map (fun x : sstatic * sstate => s_pop (snd x)) l)).
+  { apply F2_map_r. eapply Forall2_impl; [|exact Ffst]. intros p x ->. reflexivity. }
+  set (z4 := zip4 (map fst l) (map (fun x : sstatic * sstate => s_pop (snd x)) l) svs bs).
+  pose proof (F2_zip4 _ _ _ _ _ _ _ _ _ Fst Fps Fsvs Fsnd) as Hz4. fold z4 in Hz4.
+  assert (Hside : Forall c_side z4).
+  { eapply F2_Forall_r; [exact (F2_with_l _ _ _ _ HL Hz4)|].
+    intros [x b0] [[[st ps] sv] b] (((Hsx & Hxs) & (rem & Hrem & Eb)) & (E1 & E2 & _ & E4)).
+    cbn [fst snd] in *. subst st ps b b0. unfold c_side.
+    destruct x as [stx sx]. cbn [fst snd] in *.
+    pose proof (phase_b_spec month0 stx (phase_a m (stx, sx)) (transfer_of (st_sp stx) (als_of m l) 0) rem Hsx Hrem) as B.
+    cbn zeta in B. destruct B as (_ & _ & Bo & _ & _ & _ & _ & _ & _ & _ & _ & Bpt & Bpb).
+    destruct (phase_a_nonneg m stx sx Hsx Hxs) as ((P0 & _) & _).
+    destruct Hsx as (Hh & _ & _ & Hd & Hsv & _).
+    repeat split; try assumption. rewrite Bo. apply Qmult_le_0_compat; assumption. }
+  pose proof (phase_c_loop_rel z4 hk_hours_total (Qeq_refl 0) Hside) as Hcs.
+  pose proof (F2_trans _ _ _ _ _ Hz4 Hcs) as Hcs'.
+  pose proof (F2_combine _ _ _ _ _ Hcs' Fsvs) as Hcomb.
+  pose proof (F2_zip4 _ _ _ _ _ _ _ _ _ Ffos Fals Fsnd Hcomb) as Hall.
+  split.
+  - apply (F2_uncombine _ l bs _ Lbs). fold L. apply F2_map_r.
+    eapply Forall2_impl; [|exact (F2_with_l _ _ _ _ HL Hall)].
+    intros [x b0] [[[fo sa] b] [c sv']] H. cbn [fst snd] in H.
+    destruct H as ((_ & (rem & Hrem & Eb)) & (_ & Esa & Eb2 & (Hc & _))).
+    destruct Hc as (q0 & H1 & H2). destruct q0 as [[[st ps] sv] b'].
+    destruct H1 as (E1 & E2 & _ & E4). destruct H2 as (q & Hq & Ec).
+    cbn [fst snd] in *. subst sa st ps b' b. unfold herd_month. cbn [m_a m_b m_c fst snd].
+    exists rem, sv, q. repeat split; try assumption.
+  - rewrite map_map.
+    rewrite (map_ext _ (fun q : fedout * (sstatic * phaseA) * phaseB * (phaseC * Q) => let '(_, _, z, _) := q in z)).
+    + apply zip4_third.
+      * congruence.
+      * unfold als_of. rewrite map_length. congruence.
+      * rewrite combine_length, (F2_length _ _ _ Hcs), (F2_length _ _ _ Hz4), LL, Lsvs, Lbs. apply Nat.min_id.
+    + intros [[[fo sa] b] [c sv']]. reflexivity.
+Qed.
+
+(* ---- what holds for every herd of the list in the flows month_step returns *)
+Definition herd_conclusions (m : Q) (l : list (sstatic * sstate)) (x : sstatic * sstate) (r : species_month) : Prop :=
+  let st := fst x in
+  let s := snd x in
+  let a := m_a r in
+  let b := m_b r in
+  let c := m_c r in
+  let tr := transfer_of (st_sp st) (als_of m l) 0 in
+  let ledger := s_pop s + a_births a + (if st_milk st then 0 else tr) - (if st_milk st then a_ret a else 0)
+                - b_other_death b - b_slaughter b - c_starve_death c - c_hk_healthy c - c_hk_starving c in
+  let available := s_pop s - (b_other_death b + (if st_milk st then a_ret a else 0)) + b_additive b in
+  a = phase_a m x /\
+  ((0 <= ledger -> c_pop c == ledger) /\ (ledger <= 0 -> c_pop c == 0)) /\
+  (b_transfer b = (if st_milk st then - tr else tr) /\
+   b_additive b = (if st_milk st then a_births a else a_births a + tr)) /\
+  (0 <= b_slaughter b /\ (0 <= available -> b_slaughter b <= available) /\ (available < 0 -> b_slaughter b == 0) /\
+   (st_target st <= available -> st_target st <= available - b_slaughter b) /\
+   (available < st_target st -> b_slaughter b == 0)) /\
+  (0 <= a_births a /\ 0 <= a_ret a /\ 0 <= b_other_death b /\ 0 <= c_starve_death c /\
+   c_hk_healthy c == 0 /\ c_hk_starving c == 0 /\ c_hk_other c == 0) /\
+  state_ok (next_state r).
+
+Lemma herd_month_conclusions : forall m month0 l x r, herd_ok x -> herd_month m month0 l x r -> herd_conclusions m l x r.
+Proof.
+  intros m month0 l [st s] r [Hst Hs] (rem & sv & q & Hrem & Hq & Ea & Eb & Ec).
+  cbn [fst snd] in *.
+  destruct (phase_a_nonneg m st s Hst Hs) as (As & Ap & Ab & _ & Ar & _). cbn zeta in *.
+  set (a := phase_a m (st, s)) in *.
+  set (tr := transfer_of (st_sp st) (als_of m l) 0) in *.
+  pose proof (phase_b_spec month0 st a tr rem Hst Hrem) as B. cbn zeta in B.
+  destruct As as (P0 & _).
+  pose proof (ledger_one month0 st a tr rem sv q Hq Hst Hrem P0) as L. cbn zeta in L.
+  set (b := phase_b month0 st a tr rem) in *.
+  destruct B as (Ba & Bt & Bo & Bs & Bp & B1 & B2 & T1 & T2 & _ & _ & Bpt & Bpb).
+  assert (Hod : 0 <= b_other_death b).
+  { rewrite Bo. destruct Hst as (_ & _ & _ & Hd & _). apply Qmult_le_0_compat; assumption. }
+  assert (Hh : 0 < st_hours st) by apply Hst.
+  assert (Hsv : 0 <= st_starv st) by apply Hst.
+  assert (Ht : 0 <= st_target st) by apply Hst.
+  pose proof (phase_c_spec st (s_pop (a_state a)) sv b q Hq Hh Hsv Hod Bpt Bpb) as C. cbn zeta in C.
+  set (c := phase_c st (s_pop (a_state a)) sv b q) in *.
+  destruct C as (C1 & C2 & C3 & _ & _ & C6 & _ & _ & _ & _ & _ & C12 & C13).
+  destruct L as (L1 & L2 & L3).
+  unfold herd_conclusions. cbn [fst snd]. cbn zeta.
+  rewrite Ec, Eb, Ea. fold a. fold tr. fold b. rewrite <- Ap. fold c.
+  split; [reflexivity|]. split; [split; assumption|]. split; [split; assumption|].
+  split.
+  { rewrite Ba in *. split; [exact Bs|]. split; [|split; [|split]].
+    - intro H. specialize (B1 H). lra.
+    - intro H. apply B2. exact H.
+    - intro H.
+      assert (H0 : 0 <= s_pop (a_state a) - (b_other_death b + (if st_milk st then a_ret a else 0)) +
+                        (if st_milk st then a_births a else a_births a + tr)) by lra.
+      specialize (B1 H0). specialize (T1 H). lra.
+    - exact T2. }
+  split; [repeat split; assumption|].
+  unfold next_state, state_ok. cbn [s_pop s_sl s_ptot s_pbirth].
+  rewrite Ec, Eb. fold a. fold tr. fold b. rewrite <- Ap. fold c.
+  repeat split; assumption.
+Qed.
+
+Lemma month_step_conclusions : forall month l feed grass, Forall herd_ok l ->
+  Forall2 (herd_conclusions (inject_Z (Z.of_nat month)) l) l (fst (fst (month_step month l feed grass))).
+Proof.
+  intros month l feed grass Hok.
+  destruct (month_step_herds month l feed grass Hok) as [H _]. cbn zeta in H.
+  eapply Forall2_impl; [|exact (F2_with_l _ _ _ _ Hok H)].
+  intros x r [Hx Hr]. eapply herd_month_conclusions; eassumption.
+Qed.
+
+(* ---- the state handed to the next month, and the iteration over months *)
+Definition step_states (month : nat) (l : list (sstatic * sstate)) (feed grass : Q) : list (sstatic * sstate) :=
+  combine (map fst l) (map next_state (fst (fst (month_step month l feed grass)))).
+
+Fixpoint iterate_months (n : nat) (month : nat) (feed grass : nat -> Q) (l : list (sstatic * sstate))
+  : list (sstatic * sstate) :=
+  match n with
+  | O => l
+  | S n' => iterate_months n' (S month) feed grass (step_states month l (feed month) (grass month))
+  end.
+
+Lemma step_states_ok : forall month l feed grass, Forall herd_ok l -> Forall herd_ok (step_states month l feed grass).
+Proof.
+  intros month l feed grass Hok. unfold step_states.
+  pose proof (F2_with_l _ _ _ _ Hok (month_step_conclusions month l feed grass Hok)) as H.
+  induction H as [|x r l' rs' [Hx Hr] _ IH]; cbn [map combine]; constructor; [|exact IH].
+  split; cbn [fst snd]; [apply Hx|apply Hr].
+Qed.
+
+Lemma step_states_statics : forall month l feed grass, Forall herd_ok l ->
+  map fst (step_states month l feed grass) = map fst l.
+Proof.
+  intros month l feed grass Hok. unfold step_states.
+  pose proof (F2_length _ _ _ (month_step_conclusions month l feed grass Hok)) as Hl.
+  set (rs := fst (fst (month_step month l feed grass))) in *. clearbody rs. clear Hok.
+  revert rs Hl. induction l as [|x l IH]; intros [|r rs] Hl; cbn in *; try discriminate; try reflexivity.
+  f_equal. apply IH. congruence.
+Qed.
+
+Lemma iterate_months_ok : forall n month feed grass l, Forall herd_ok l -> Forall herd_ok (iterate_months n month feed grass l).
+Proof.
+  induction n as [|n IH]; intros month feed grass l Hok; cbn [iterate_months]; [exact Hok|].
+  apply IH. apply step_states_ok. exact Hok.
+Qed.
+
+(* ---- initial state (set_species_slaughter_attributes + append_month_zero):
+        population[0] = head count, slaughter[0] = initial_slaughter,
+        pregnant_animals_total[0] = birth_ratio * births_baseline / animals_per_pregnancy * gestation,
+        pregnant_animals_birthing_this_month[0] = that / gestation *)
+Definition init_state (pop initial_slaughter births_baseline ratio perpreg gest pfrac : Q) : sstate :=
+  let ptot := ratio * births_baseline / perpreg * gest in
+  {| s_pop := pop; s_sl := initial_slaughter; s_ptot := ptot; s_pbirth := ptot / gest; s_pfrac := pfrac |}.
+
+Lemma init_state_ok_lemma : forall pop sl bb ratio perpreg gest pfrac,
+  0 <= pop -> 0 <= sl -> 0 <= bb -> 0 < ratio -> 0 < perpreg -> 0 < gest ->
+  state_ok (init_state pop sl bb ratio perpreg gest pfrac).
+Proof.
+  intros pop sl bb ratio perpreg gest pfrac Hp Hs Hb Hr Hpp Hg. unfold init_state, state_ok. cbn [s_pop s_sl s_ptot s_pbirth].
+  assert (H1 : 0 <= ratio * bb) by (apply Qmult_le_0_compat; lra).
+  assert (H2 : 0 <= ratio * bb / perpreg) by (apply div_nonneg; assumption).
+  assert (H3 : 0 <= ratio * bb / perpreg * gest) by (apply Qmult_le_0_compat; lra).
+  repeat split; try assumption. apply div_nonneg; assumption.
+Qed.
+
+Lemma month_step_hours : forall month l feed grass, Forall herd_ok l ->
+  let m := inject_Z (Z.of_nat month) in
+  forall z, hours_used z (als_of m l) (map m_b (fst (fst (month_step month l feed grass)))) <= hours_of_size z (map fst l).
+Proof.
+  intros month l feed grass Hok m z.
+  destruct (month_step_herds month l feed grass Hok) as [_ H]. cbn zeta in H. fold m in H. rewrite H.
+  assert (Hst : Forall (fun x : sstatic * phaseA => static_ok (fst x)) (als_of m l)).
+  { unfold als_of. apply Forall_map. eapply Forall_impl; [|exact Hok]. intros x [Hx _]. exact Hx. }
+  assert (Hsts : Forall static_ok (map fst l)).
+  { apply Forall_map. eapply Forall_impl; [|exact Hok]. intros x [Hx _]. exact Hx. }
+  assert (Hh0 : hours_nonneg (h0_of l)).
+  { unfold h0_of, hours_nonneg. cbn. repeat split; apply hours_of_size_nonneg; exact Hsts. }
+  pose proof (hours_used_le (Nat.eqb month 0) (als_of m l) (als_of m l) (h0_of l) Hst Hh0 z) as P.
+  unfold h0_of in P at 2. destruct z; exact P.
+Qed.
+
+Lemma iterate_months_statics : forall n month feed grass l, Forall herd_ok l ->
+  map fst (iterate_months n month feed grass l) = map fst l.
+Proof.
+  induction n as [|n IH]; intros month feed grass l Hok; cbn [iterate_months]; [reflexivity|].
+  rewrite IH; [apply step_states_statics; exact Hok|apply step_states_ok; exact Hok].
+Qed.
